@@ -299,17 +299,23 @@ CLAIMS = {
         technique="Coq proof (case analysis over the generated table + induction over histories) + translator + exhaustive graph correspondence",
         design="4/C11"),
     "C10": dict(
-        text="Coq theorem (axiom-free): for every byte string F that the state's parser accepts as a frame f (arbitrary "
+        text="Coq theorems (axiom-free): (1) for every byte string F that the state's parser accepts as a frame f (arbitrary "
              "payload bytes incl. flag bytes), every link state that may receive it and EVERY partition of F into non-empty "
              "chunks, polling until nothing is pending after each chunk yields only NEED_DATA before the last chunk and then "
              "exactly f, once, with the buffer empty and the search position reset (induction over the chunk list; key "
              "lemma: a candidate ending at an inner 0x7E is a proper prefix and is refused by the length check with the "
-             "parsing error the factory maps to NEED_DATA). Streams of several frames, shared flags and the interleaved "
-             "receive-ready frames are covered by the correspondence (same scripts on model and real HdlcConnection: every "
-             "single and double cut of short streams, random multi-cuts to 1-byte chunks) and the delivered-frames search.",
-        note="Partial: the multi-frame / shared-flag statement is checked, not proved. Trusted: Coq kernel, translator, "
-             "extraction + driver, Python harness.",
-        technique="Coq proof (induction over chunk partitions) + scripted correspondence on the real connection object",
+             "parsing error the factory maps to NEED_DATA). (2) C10_any_chunking_stream: for every stream of any number of "
+             "frames, each contributing its whole bytes or - shared flag - its bytes without the opening flag, each acceptable "
+             "to the link at its point (receive-ready sent between segments as the transport does), and EVERY partition of "
+             "the stream into non-empty chunks: nothing is raised, after the first j chunks exactly the frames whose last "
+             "byte has been handed over have been delivered (in order, once - never early, never late), and at the end the "
+             "buffer is empty with the search position reset (induction over frames inside an induction over chunks). "
+             "(3) the polling loop of the correspondence scripts is the proved one. The same scripts run on the real "
+             "HdlcConnection (every single and double cut of short streams, random multi-cuts to 1-byte chunks) and the "
+             "delivered-frames search runs on the implementation.",
+        note="Every clause is a theorem about the model; the model is tied to the code by the scripted correspondence and the "
+             "generated link table. Trusted: Coq kernel, translator, extraction + driver, Python harness.",
+        technique="Coq proof (induction over frames and chunk partitions) + scripted correspondence on the real connection object",
         design="4/C10"),
 }
 
